@@ -209,6 +209,20 @@ def mutable_default_rule(repo, res, rels, RULE):
     res.ok(RULE, "%d functions of %s examined: no mutable default argument is changed or handed out" % (n, ", ".join(r.split("/")[-1] for r in rels)))
 
 
+def _message_handed_on(wmod, fn):
+    """a local that holds a freshly made protobuf message (`x = some_pb2.T()`) is passed as an argument to a
+    module-level function of the writer module"""
+    msgs = set()
+    for n in ast.walk(fn):
+        if isinstance(n, ast.Assign) and len(n.targets) == 1 and isinstance(n.targets[0], ast.Name) and isinstance(n.value, ast.Call) and not n.value.args and isinstance(n.value.func, ast.Attribute) and isinstance(n.value.func.value, ast.Name) and n.value.func.value.id.endswith("_pb2"):
+            msgs.add(n.targets[0].id)
+    for c in ast.walk(fn):
+        if isinstance(c, ast.Call) and isinstance(c.func, ast.Name) and c.func.id in wmod.functions:
+            if any(isinstance(a, ast.Name) and a.id in msgs for a in list(c.args) + [k.value for k in c.keywords]):
+                return True
+    return False
+
+
 def _dynamic_field_reader(rmod, fn):
     """the factory passes one of its parameters to a module-level function that reads attributes of it by a name that
     is not a constant (getattr(p, name) / p.HasField(name))"""
@@ -324,6 +338,11 @@ def run(repo, res, tier):
                 res.note("PB-COVER exception %s.%s: %s" % (mname, f, COVER_EXCEPTIONS[(mname, f)]))
                 continue
             ok = f in written or f in generic_fields
+            if not ok and _message_handed_on(wmod, b.fn):
+                # the builder passes the message it fills to a function of the module: what that function sets is not
+                # followed, so `never sets` cannot be concluded
+                res.refuse("%s hands the message it builds to a function of the module; whether %s.%s is set there is not decided" % (qn, mname, f))
+                continue
             res.check("PB-COVER", "%s.%s is set by %s" % (mname, f, bname), ok, wmod, b.fn, "%s never sets %s.%s" % (bname, mname, f), "the format has a field for this information but the writer never fills it: it is lost on writing", qualname=qn)
         fa = by_msg_r.get(mname)
         if fa is None:
